@@ -79,6 +79,14 @@ def c18_joint(op, impl, model, stats):
         return "%sdecoding %d input bytes allocated %d bytes; model count %d (limit %d)" % (cls, n, used, cost, limit)
     return None
 
+def c20_project(op, a):
+    """`rec`: the property lets the encoder choose between push and extend ("through whichever of its push/extend
+    methods the encoder chooses"), so only the concatenated payload, in order, is compared - not the call structure
+    (false alarm on a neutral change that sends one-byte varints through try_push; DESIGN 0.4)."""
+    if op.startswith("rec ") and a.startswith("ok"):
+        return "ok " + "".join(c[2:] for c in a[2:].split())
+    return a
+
 PROPS = {
     "C01": {
         "alt_config": {"ops": ["rt"], "stride": 3},
@@ -163,7 +171,7 @@ PROPS = {
         "rule": "(for the two 32-bit algorithms the crate-root wrappers to_slice_crc32 / to_vec_crc32 / to_stdvec_crc32 / to_allocvec_crc32 / from_bytes_crc32 / take_from_bytes_crc32 are cross-checked against the flavour-level entry points in every crcser / crcde op; long str/bytes bodies 15..300 bytes with truncations and tail bit flips); `crcraw` (crc crate vs the Rocksoft bitwise model, 10 catalogue algorithms, widths 8/12/16/32/64/82), `crcser` (to_slice/to_vec/to_allocvec agree; frame = plain ++ LE checksum), `crcde` (valid, extended, every truncation, random damage), `crcdex`: per sampled frame EVERY single-bit flip of the frame and burst patterns <= width at every bit offset of the payload in the algorithm's own bit order must not be accepted with unchanged decoded length; non-trivial = distinct op line",
         "nontrivial": lambda op, a: True,
         "diff_is_witness": False,
-        "trusted_base": COMMON_TB + [SERDE_TB, "the crc 3.4 crate is MODELLED as the Rocksoft parametric bitwise algorithm (pinned to crc-catalog check values by kernel-evaluated examples, compared with the crate each run)", "digest = exactly the bytes the inner flavour handed out (derived model of the de CrcModifier)"],
+        "trusted_base": COMMON_TB + [SERDE_TB, "the crc 3.4 crate is MODELLED as the Rocksoft parametric bitwise algorithm (pinned to crc-catalog check values by kernel-evaluated examples, compared with the crate each run)", "the de CrcModifier is modelled method by method (Model/CrcDe.lean) and PROVED equal to the derived list-level model (takeFromBytesCrcG_eq); crc::Digest::update over a slice = byte by byte is MODELLED"],
         "assumptions": ["bursts are contiguous in the algorithm's own bit order (LSB-first within bytes when refin) (DESIGN §8)"],
     },
     "C16": {
@@ -232,6 +240,7 @@ PROPS = {
     },
     "C20": {
         "gens": ["C20"],
+        "project": c20_project,
         "rule": "block-boundary values (zero-free runs of 249..256 / 503..510 bytes, bodies of 13..129 bytes around powers of two) through `cobsval` and every stack; `stack crccobs <storage> <cap> <alg> <type> <value>`: serialize_with_flavor(v, CrcModifier::new(Cobs::try_new(storage)?, digest)) for storage in {growable, slice between canaries, heapless} x 4 CRC widths, ample and too-small capacity; harness oracle: output = COBS frame of (plain ++ LE checksum) computed independently, reference-COBS-decoding then CRC-checked decoding recovers the value; `rec override|default <value>`: a recording user flavour with and without a try_extend override (call log compared with emit v / byte-wise pushes; payloads concatenate to the plain encoding); plus the single-layer stacks via `sercap`; non-trivial = distinct op line",
         "nontrivial": lambda op, a: True,
         "diff_is_witness": False,
